@@ -20,14 +20,18 @@ Local Open Scope nat_scope.
       12 number of passes differs             13 warning flag differs
       14 the model failed ([LErr], [LFuel], arity)
       15 a premise of the theorems fails on this case although the model agrees with the
-         implementation (a warning, a size-changing binding of the last unifier, a clone with a
-         size-1 factor) *)
+         implementation: a warning was issued, or (termination) a clone has a size-1 factor
+      16 internal: the last unifier changes a size although nothing was warned about
+         (impossible: C09_unify_sized)
+      17 harness: a physical axis occurs with two sizes *)
 Definition psolve_axis_check
   (x : (bool * list pn * list axis) * (bool * list pn * list axis) * positive * (nat * axis * nat * bool)) : nat :=
   let '((a_zero, aps, avs), (b_zero, bps, bvs), next, (i_tag, i_e, i_iters, i_warn)) := x in
   match psolve_axes a_zero b_zero aps avs bps bvs next with
   | None => 14
   | Some (a0, a1, b0, ebs, r) =>
+      if negb (sizes_consistent (fvn a0 ++ fvn a1) && sizes_consistent (fvn b0) && sizes_consistent (fvn i_e)) then 17
+      else
       match r with
       | LErr _ | LFuel _ _ => 14
       | LEarly e i =>
@@ -44,7 +48,8 @@ Definition psolve_axis_check
           else if negb (alpha_eqb g i_e) then 11
           else if negb (Nat.eqb (li_iters i) i_iters) then 12
           else if negb (Bool.eqb (li_warn i) i_warn) then 13
-          else if li_warn i || negb (last_sized_b a0 (li_trace i)) || negb (trace_nouf (li_trace i)) then 15
+          else if li_warn i || negb (trace_nouf (li_trace i)) then 15
+          else if negb (last_sized_b a0 (li_trace i)) then 16
           else 0
       end
   end.
